@@ -177,6 +177,14 @@ def check_lookup(spec, ctx):
             ctx.fail(f"clamping below the range gives {got}, expected 0", spec, int(got), 0, kind="clamp")
         elif exp == "above" and int(got) not in (n - 1, n):
             ctx.fail(f"clamping above the range gives {got}, expected {n - 1} or {n}", spec, int(got), [n - 1, n], kind="clamp")
+    # raise_error defaults to True
+    try:
+        d_got = ("ok", int(arrays.get_coord_index(arr, "time", v)))
+    except KeyError:
+        d_got = ("KeyError", None)
+    d_exp = ("ok", exp) if isinstance(exp, int) else ("KeyError", None)
+    if d_got != d_exp:
+        ctx.fail(f"get_coord_index({v!r}) with raise_error omitted gives {d_got}, expected {d_exp}", spec, d_got, d_exp, kind="defaults")
     # a window cut out of the array that was just queried answers by ITS coordinates
     if n >= 4:
         sub = arr.isel(time=slice(1, n - 1))
